@@ -38,6 +38,22 @@ THEOREMS = {
     ],
 }
 
+TIE_MODULE = "Cstl.DList.Tie"
+TIE_THEOREMS = [
+    "Cstl.DList.Tie.insert_tie",
+    "Cstl.DList.Tie.erase_tie",
+    "Cstl.DList.Tie.insert_public_tie",
+    "Cstl.DList.Tie.erase_public_tie",
+    "Cstl.DList.Tie.front_tie",
+    "Cstl.DList.Tie.back_tie",
+    "Cstl.DList.Tie.pushFront_tie",
+    "Cstl.DList.Tie.pushBack_tie",
+    "Cstl.DList.Tie.popFront_tie",
+    "Cstl.DList.Tie.popBack_tie",
+    "Cstl.DList.Tie.pop_none_iff",
+    "Cstl.DList.Tie.concat_tie",
+]
+
 NLISTS = 3
 
 
